@@ -367,3 +367,20 @@ package types
 
 // coin constructors as call-free functions of their arguments (see C41 for the arithmetic)
 //@ pure coinsOf(amount int) Coins
+
+// ---- events and error results: pure value construction --------------------------------------
+//@ func NewEvent
+//@   trusted value constructor (loops over attributes): no state change
+//@   pure_fn
+//@ func NewAttribute
+//@   trusted value constructor: no state change
+//@   pure_fn
+//@ func (*EventManager).EmitEvents
+//@   trusted event log append: not part of any state modelled here
+//@   pure_fn
+//@ func (*EventManager).EmitEvent
+//@   trusted event log append: not part of any state modelled here
+//@   pure_fn
+//@ func (*EventManager).Events
+//@   trusted accessor
+//@   pure_fn
